@@ -20,11 +20,12 @@ EXPLANATION = ("Bounded symbolic execution (CrossHair/z3) of a timed post_fifo/p
                "0,p,..,(n-1)p (not deferred), each time at the back (fifo) or the front (lifo); times=0 keeps posting every p (M posts before the cut, "
                "run flag still set); the source is tracked under the id that the call returned.")
 RULE = "one case per (times, deferred, kind, period, pending, cut); non-trivial = at least two postings"
-LIM = {"quick": dict(NT=4, PMAX=3, NP=2), "thorough": dict(NT=7, PMAX=4, NP=3)}
+LIM = {"quick": dict(NT=4, PMAX=6, NP=2), "thorough": dict(NT=7, PMAX=8, NP=3)}
+PERIODS = [1, 2, 3, 0.3, 0.27, 0.04, 4, 2.5]     # index p-1: whole and fractional seconds (not multiples of a nap length)
 
 
 def bounds(tier):
-  d = dict(LIM[tier]); d["meaning"] = "NT = max times; PMAX = max period; NP = max pending events; cut M in 1..3 for times=0"
+  d = dict(LIM[tier]); d["meaning"] = "NT = max times; PMAX = periods PERIODS[0..PMAX-1] of %s;" % (PERIODS,) + " NP = max pending events; cut M in 1..3 for times=0"
   return d
 
 
@@ -51,7 +52,8 @@ def case(n, deferred, kind, p, np_, M):
   real_append, real_appendleft = ld.append, ld.appendleft
   ld.append = lambda item: (puts.append((vt.now, "back", item)), real_append(item))[1]
   ld.appendleft = lambda item: (puts.append((vt.now, "front", item)), real_appendleft(item))[1]
-  what = "times=%d deferred=%s kind=%s period=%d pending=%d" % (n, bool(deferred), "lifo" if kind else "fifo", p, np_)
+  p = PERIODS[p - 1]
+  what = "times=%d deferred=%s kind=%s period=%s pending=%d" % (n, bool(deferred), "lifo" if kind else "fifo", p, np_)
   try:
     if kind:
       tid = a.post_lifo(ev, period=p, times=n, deferred=bool(deferred))
@@ -84,8 +86,11 @@ def case(n, deferred, kind, p, np_, M):
     count = n
     if cut:
       return FAIL("harness:cut", what)
-  first = p if deferred else 0
-  want = [(first + i * p, side) for i in range(count)]
+  want, t = [], 0
+  for i in range(count):
+    if deferred or i > 0:
+      t += p                     # the same additions the virtual clock makes
+    want.append((t, side))
   if mine != want:
     if len(mine) != len(want):
       return FAIL("post-count", "%s: %d posts %s expected %d %s" % (what, len(mine), mine, len(want), want))
@@ -106,7 +111,7 @@ def case(n, deferred, kind, p, np_, M):
   return PASS(nontrivial=count >= 2)
 
 
-Family(globals(), "h_timed", params=[("n", 0, 7), ("deferred", 0, 1), ("kind", 0, 1), ("p", 1, 4), ("np", 0, 3), ("M", 1, 3)],
+Family(globals(), "h_timed", params=[("n", 0, 7), ("deferred", 0, 1), ("kind", 0, 1), ("p", 1, 8), ("np", 0, 3), ("M", 1, 3)],
        pre=pre, case=case, split=["kind", "deferred"], tiers=LIM)
 
 
